@@ -152,9 +152,9 @@ def audit(modules: list[str], theorem_files: list[Path], timeout: int = 1800) ->
     out = cp.stdout + cp.stderr
     res: dict[str, list[str]] = {}
     # "'name' depends on axioms: [a, b]"  /  "'name' does not depend on any axioms"
-    for m in re.finditer(r"^'(.+?)' depends on axioms: \[([^\]]*)\]", out, re.S | re.M):
+    for m in re.finditer(r"^'([^\n]+?)' depends on axioms: \[([^\]]*)\]", out, re.M):
         res[m.group(1)] = [a.strip() for a in m.group(2).replace("\n", " ").split(",") if a.strip()]
-    for m in re.finditer(r"^'(.+?)' does not depend on any axioms", out, re.M):
+    for m in re.finditer(r"^'([^\n]+?)' does not depend on any axioms", out, re.M):
         res[m.group(1)] = []
     bad = {}
     for t in thms:
